@@ -287,9 +287,11 @@ class MetadataBase(object):
         :type f: file or str
         """
         self.validate()
+        # serialize (and thereby validate all nested sections) before the
+        # destination is opened, so a failure can't truncate an existing file
+        parser = self._get_parser()
+        self.serialize(parser)
         with open_file_obj(f, "w") as f:
-            parser = self._get_parser()
-            self.serialize(parser)
             self.build_file(parser, f)
 
     def dumps(self):
